@@ -7,33 +7,34 @@ META = {
     "level": "model_checking",
     "technique": "TLA+ decision table (Signer.tla) enumerated by TLC and realised row by row with real keys on core/types; sender-cache behaviours replayed; driver built with cgo and without, logs zipped into one trace validated by SignerTrace.tla",
     "text": "Signer.tla states, from the Yellow Paper, EIP-2, EIP-155, EIP-2718 and the typed-transaction EIPs, which outcome (recovers the signer / recovers another address / unsupported type / wrong chain id / invalid signature) sender recovery must have for every signer kind (Frontier..Prague, constructors and MakeSigner at every fork), chain id (0, 1, 1337, > 64 bit), transaction type and signature class (v encoding, parity, r and s range classes incl. the n/2 boundary, honest/malleated/foreign preimage). TLC checks the table laws (sign-then-recover, cross-signer attribution, high-s only pre-Homestead, range strictness, forward compatibility) and prints every row; the driver produces a real signature for each row, edits it into the class and compares types.Sender/Signer.Sender; signing hashes are recomputed from the EIP field lists; repeated Sender calls on one object must follow the cache machine. The same driver is built with CGO_ENABLED=1 and 0; both logs (table rows, digests over all rows, and a seeded secp256k1 corpus of valid, edited and random inputs) must be identical and conform.",
-    "note": "The curve arithmetic is covered only differentially (two backends, sign/recover inverse). Three deviations of the code from the property are admitted as pending findings by explicit TODO-KNOWN-FINDING disjuncts (C03-F1 EIP155Signer with chain id 0, C03-F2 signatures over digests >= n differ between backends, C03-F3 pure-Go Ecrecover accepts recovery ids 4..7); see spec/codec/NOTES.md. JSON-level signature sanity checks (sanityCheckSignature) are not covered.",
+    "note": "The curve arithmetic is covered only differentially (two backends, sign/recover inverse). Recognised deviations of the code from the property (exact fingerprints, spec/codec/NOTES.md): C03-F1 EIP155Signer with chain id 0 and C03-F2 signatures over digests >= n differ between backends are reported as KNOWN-FINDING while open in known_findings.json and as violations otherwise; C03-F3 pure-Go Ecrecover accepts recovery ids 4..7 is being repaired in /repo. JSON-level signature sanity checks (sanityCheckSignature) are not covered.",
     "design_ref": "3.1 C03",
 }
 
 TAGS = ("CASE", "SIGN", "FORK", "HASHFIELDS")
 
 
-def zip_logs(ctx, a_path, b_path, out_path):
-    """event i = [op, a = cgo build, b = pure-Go build]; a missing partner shows up as op 'end' mismatch"""
+def zip_logs(ctx, a_path, b_path, out_path, found):
+    """event i = [op, a = cgo build, b = pure-Go build].  Matches of the recognised finding fingerprints are
+    counted in `found` (id -> [count, sample]); whether they are admitted is decided in run()."""
     a = [json.loads(l) for l in open(a_path) if l.strip()]
     b = [json.loads(l) for l in open(b_path) if l.strip()]
-    n = 0
-    pend = {}
+
+    def hit(fid, ev):
+        e = found.setdefault(fid, [0, ev])
+        e[0] += 1
     with open(out_path, "a") as f:
         for i in range(max(len(a), len(b))):
             x = a[i] if i < len(a) else {"op": "missing"}
             y = b[i] if i < len(b) else {"op": "missing"}
-            f.write(json.dumps({"op": x.get("op"), "a": x, "b": y}) + "\n")
-            n += 1
-            # reporting only; acceptance is decided by the TPendingF* disjuncts of SignerTrace.tla
+            ev = {"op": x.get("op"), "a": x, "b": y}
+            f.write(json.dumps(ev) + "\n")
             if x.get("op") == "csign" and x.get("class") == "digestGeN" and x.get("sig") != y.get("sig"):
-                pend["C03-F2"] = pend.get("C03-F2", 0) + 1
+                hit("C03-F2", ev)
             if x.get("op") == "recover" and x.get("class") == "vBad" and x.get("ok") is False and y.get("ok") is True:
-                pend["C03-F3"] = pend.get("C03-F3", 0) + 1
-            if x.get("op") == "sign" and x.get("recovered") == "Other":
-                pend["C03-F1"] = pend.get("C03-F1", 0) + 1
-    return n, pend
+                hit("C03-F3", ev)
+            if x.get("op") == "sign" and x.get("recovered") == "Other" and x.get("sg") == {"kind": 3, "chain": 0}:
+                hit("C03-F1", ev)
 
 
 def run(ctx):
@@ -61,33 +62,42 @@ def run(ctx):
     tpath = os.path.join(ctx.scratch, "table.json")
     write_json(tpath, table)
     logs = {}
-    pending_notes = set()
     for tag, drv in (("cgo", d1), ("nocgo", d0)):
         lt = os.path.join(ctx.scratch, "rows-%s.ndjson" % tag)
-        s, _ = ctx.drive(drv, ["-mode", "table", "-in", tpath, "-log", lt, "-rowlog", ctx.pick(97, 23)], timeout=3600, name="c03-table-" + tag)
-        for n in s.get("notes", []):
-            pending_notes.add(n)
+        ctx.drive(drv, ["-mode", "table", "-in", tpath, "-log", lt, "-rowlog", ctx.pick(97, 23)], timeout=3600, name="c03-table-" + tag)
         lc = os.path.join(ctx.scratch, "corpus-%s.ndjson" % tag)
         ctx.drive(drv, ["-mode", "corpus", "-log", lc, "-n", ctx.pick(120, 2500)], timeout=3600, name="c03-corpus-" + tag)
         logs[tag] = (lt, lc)
     # V: zip the logs of the two builds and validate
     tp = os.path.join(ctx.scratch, "trace.ndjson")
     open(tp, "w").close()
-    pend = {}
+    found = {}
     for i in (0, 1):
-        _, p = zip_logs(ctx, logs["cgo"][i], logs["nocgo"][i], tp)
-        for k, v in p.items():
-            pend[k] = pend.get(k, 0) + v
-    ok, consumed, total, r = ctx.validate("codec/SignerTrace", tp, ntraces=2, timeout=3600)
+        zip_logs(ctx, logs["cgo"][i], logs["nocgo"][i], tp, found)
+    # Recognised deviations.  C03-F1/F2 are admitted only while known_findings.json lists them as open
+    # (KNOWN-FINDING line); C03-F3 is being repaired in /repo - until that lands it is admitted unless the
+    # run is strict (VERIF_STRICT=C03-F3, used to validate the repair).  Everything else is a violation.
+    strict = set(x for x in os.environ.get("VERIF_STRICT", "").split(",") if x)
+    admit = {}
+    for fid in ("C03-F1", "C03-F2", "C03-F3"):
+        n = found.get(fid, [0])[0]
+        if fid == "C03-F3":
+            admit[fid] = n > 0 and fid not in strict
+            if admit[fid]:
+                line = "PENDING-FIX property=C03 %s: %d event(s): pure-Go Ecrecover accepts recovery ids 4..7 (repair prepared: spec/codec/mutations/C03-F3-candidate-fix.diff)" % (fid, n)
+                print(line); ctx.notes.append(line)
+        else:
+            admit[fid] = n > 0 and ctx.known_finding(fid)
+        if n > 0 and not admit[fid]:
+            ctx.violation("%s: %d event(s) show the deviation and it is not an open known finding" % (fid, n),
+                          {"kind": "finding", "id": fid, "count": n, "sample": found[fid][1], "seed": ctx.seed, "tier": ctx.tier})
+    env = {"ADMIT_F1": "1" if admit["C03-F1"] else "0", "ADMIT_F2": "1" if admit["C03-F2"] else "0", "ADMIT_F3": "1" if admit["C03-F3"] else "0"}
+    ok, consumed, total, r = ctx.validate("codec/SignerTrace", tp, ntraces=2, timeout=3600, env=env)
     if not ok:
         ctx.reject_trace("codec/SignerTrace", tp, consumed, r)
-    for k in sorted(pend):
-        line = "PENDING-FINDING property=C03 %s: %d event(s) match the fingerprint admitted by SignerTrace.tla (see spec/codec/NOTES.md)" % (k, pend[k])
-        print(line); ctx.notes.append(line)
-    for n in sorted(pending_notes):
-        ctx.notes.append(n)
+    ctx.cov["recognised_deviations"] = {k: v[0] for k, v in found.items()}
     return ctx.finish(
         rule="MC: table laws on every (signer, tx class) row, cache machine to depth 3; R: every row realised with a real signature on both builds; V: zipped cgo/nocgo logs, every event equal and admitted by the specification",
         assumptions=["curve arithmetic itself only covered differentially (cgo vs pure Go) and by sign/recover inverse",
                      "probability-2^-128 events (recovery failure for an honest r with edited s) are ignored",
-                     "three pending findings C03-F1..F3 are admitted by explicit disjuncts in SignerTrace.tla"])
+                     "recognised deviations C03-F1/F2 (known findings) and C03-F3 (repair pending) are admitted only by their exact fingerprint"])
